@@ -40,6 +40,9 @@ CONSTANTS MaxFields,     \* fields per generated top-level shape
           MaxId,         \* scalar value ids 0..MaxId
           FixPresence,   \* TRUE: a non-nil pointer to a message is always written (as the property demands)
           FixEmptyMap,   \* TRUE: an empty map writes nothing (standard); FALSE: a zero-length entry marks it
+          RepTagged,     \* TRUE: repeated fields of the zig-zag / fixed kinds are generated (a struct tag asks for them)
+          FixRepTagged,  \* TRUE: their elements are written zig-zag / fixed-width as TypeOf documents (standard);
+                         \* FALSE (as the code is): as plain varints of the Go type
           Emit
 
 ScalarKinds == {"bool","int","i32","i64","s32","s64","uint","u32","u64","x32","x64","flt","dbl","str","byt","arr","arr7","arr15","arr16"}
@@ -138,6 +141,7 @@ Wire(shape, val) == WireMsg(shape, val)
 (* wz = the wantzero flag: set under a pointer, for slice elements and map keys/values; it makes    *)
 (* the first field that can carry it appear even if zero, and is cleared by the first field written *)
 RECURSIVE ImplMsg(_, _, _), ImplField(_, _, _, _), ImplElem(_, _, _, _)
+PlainOf(k) == CASE k = "s32" -> "i32" [] k = "s64" -> "i64" [] k = "x32" -> "u32" [] k = "x64" -> "u64" [] OTHER -> k
 
 ImplElem(k, n, val, always) ==      \* element under wantzero
   IF k \in MsgKinds
@@ -153,7 +157,8 @@ ImplField(f, n, val, wz) ==
     [] f.c = "ptr" ->
          IF val.t = "nil" THEN <<>> ELSE ImplElem(f.k, n, val.xs[1], FixPresence)
     [] f.c = "rep" ->
-         Concat([i \in 1..Len(val.xs) |-> ImplElem(f.k, n, val.xs[i], TRUE)])     \* slice elements: tag and length always
+         \* slice elements: tag and length always; the slice codec drops the zig-zag flag and never picks the fixed codecs
+         Concat([i \in 1..Len(val.xs) |-> ImplElem(IF FixRepTagged THEN f.k ELSE PlainOf(f.k), n, val.xs[i], TRUE)])
     [] f.c = "map" ->
          IF val.xs = <<>> THEN (IF FixEmptyMap THEN <<>> ELSE <<R(n, 2, "entry", 0, <<>>)>>)
          ELSE [i \in 1..Len(val.xs) |->
@@ -239,10 +244,11 @@ FieldChoices ==
 
 \* shapes the package cannot express are left out: byte arrays and []byte behind a pointer,
 \* zigzag / fixed kinds only where a struct tag can request them
+TaggedKinds == {"s32","s64","x32","x64"}
 Supported(f) ==
   /\ (f.c = "ptr" => f.k \notin {"byt"} \cup ArrKinds)
-  /\ (f.k \in {"s32","s64","x32","x64"} => f.n # 0 /\ f.c \in {"one","ptr"})
-  /\ (f.c \in {"rep","map"} /\ f.n # 0 => f.k \notin {"s32","s64","x32","x64"})
+  /\ (f.k \in TaggedKinds => f.n # 0 /\ f.c \in {"one","ptr","rep"})
+  /\ (f.c = "rep" /\ f.k \in TaggedKinds => RepTagged)
 
 NumbersDistinct(sh) == \A i, j \in 1..Len(sh) : i # j => Num(sh, i) # Num(sh, j)
 
